@@ -10,7 +10,9 @@ The real visitor runs (through the `ast.NodeVisitor` prelude) over statement tre
 classical arguments; coverage obligations say that a violating call is found WHEREVER it occurs:
 as a statement, in the block's branch predicate, nested inside any argument position.
 """
+import ast
 import itertools
+import os
 import z3
 
 from pyvc import SObj, ClassVal, Builtin, PyRaise, FlagVal
@@ -631,7 +633,62 @@ def decorator_flags(chk):
                             replay=lambda m_: {"script": REPLAY_KWARGS, "input": {}})
             n += 1
     chk.record("_parse_kwargs:combinations-explored", n >= 81, str(n), kind="reachability")
+    # every decorator that parses the flags hands them to the definition it creates (a parsed-and-dropped
+    # flag set leaves a declared-unitary function unusable in unitary contexts, and its HUGR without the flags)
+    src_path = os.path.join(chk.repo, "guppylang/src/guppylang/decorator.py")
+    tree = ast.parse(open(src_path).read())
+    for fn in ast.walk(tree):
+        if not isinstance(fn, ast.FunctionDef):
+            continue
+        for inner in [x for x in ast.walk(fn) if isinstance(x, ast.FunctionDef) and x is not fn and x.name == "dec"]:
+            for st in ast.walk(inner):
+                if isinstance(st, ast.Assign) and isinstance(st.value, ast.Call) and ast.unparse(st.value.func) == "_parse_kwargs" and isinstance(st.targets[0], ast.Name):
+                    var = st.targets[0].id
+                    used = any(isinstance(x, ast.Name) and x.id == var and isinstance(x.ctx, ast.Load) for x in ast.walk(inner))
+                    o = chk.record(f"decorator[{fn.name}]:the-parsed-flags-reach-the-definition(the result of _parse_kwargs is used)", used, f"`{var}` is assigned and never read" if not used else "",
+                                   func=f"{D}:_GuppyDummy.{fn.name}", backend="structural")
+                    if not used:
+                        from pyvc.report import run_replay
+                        res = run_replay(REPLAY_COMPTIME_FLAGS, {}, chk.repo, timeout=600)
+                        o.replay = {"confirmed": bool(res.get("violates")), "script": REPLAY_COMPTIME_FLAGS, "input": {}, "native": res}
     chk.use_engine(e)
+
+
+REPLAY_COMPTIME_FLAGS = r'''
+import tempfile, importlib.util, os, sys, shutil
+import guppylang
+guppylang.enable_experimental_features()
+from guppylang_internals.error import GuppyError
+src = """from guppylang import guppy
+from guppylang.std.quantum import qubit, h
+control = object()
+@guppy.comptime(unitary=True)
+def ct(q: qubit) -> None:
+    h(q)
+@guppy(unitary=True)
+def rg(q: qubit) -> None:
+    h(q)
+@guppy
+def calls_comptime(q: qubit, c: qubit) -> None:
+    with control(c):
+        ct(q)
+@guppy
+def calls_regular(q: qubit, c: qubit) -> None:
+    with control(c):
+        rg(q)
+"""
+d = tempfile.mkdtemp(dir=os.environ.get("TMPDIR", "/var/tmp")); fn = os.path.join(d, "replay_c24c.py"); open(fn, "w").write(src)
+spec = importlib.util.spec_from_file_location("replay_c24c", fn); m = importlib.util.module_from_spec(spec); sys.modules["replay_c24c"] = m
+spec.loader.exec_module(m)
+res = {}
+for name in ("calls_regular", "calls_comptime"):
+    try:
+        getattr(m, name).check(); res[name] = "accepted"
+    except GuppyError as ex:
+        res[name] = "rejected:" + type(ex.error).__name__
+shutil.rmtree(d, ignore_errors=True)
+print(json.dumps({"violates": res["calls_comptime"] != "accepted" and res["calls_regular"] == "accepted", "observed": res, "required": "a function declared unitary=True is accepted in a control block, comptime or not"}))
+'''
 
 
 REPLAY_KWARGS = r'''
